@@ -429,8 +429,10 @@ impl Visitor for IndentationVisitor {
         for expr in &block.exprs {
             let line_num = expr.position.line_number;
 
-            // Avoid processing the same line twice
-            if !self.processed_lines.contains(&line_num) {
+            // Avoid processing the same line twice, and leave the line
+            // alone if this expression isn't the first thing on it
+            // (e.g. it follows the opening brace).
+            if !self.processed_lines.contains(&line_num) && starts_line(&self.src, &expr.position) {
                 let target_indent = self.current_depth * 2;
                 let current_indent = expr.position.column;
 
@@ -631,6 +633,12 @@ impl Visitor for IndentationVisitor {
     }
 }
 
+/// Is this position the first non-whitespace text on its line?
+fn starts_line(src: &str, position: &crate::parser::position::Position) -> bool {
+    let line_start = position.start_offset.saturating_sub(position.column);
+    src[line_start..position.start_offset].trim().is_empty()
+}
+
 /// Collect indentation edits for comments in the source.
 ///
 /// Comments are not part of the AST, so we need to process them
@@ -655,7 +663,9 @@ fn collect_comment_edits(
         for (comment_pos, _comment_text) in &token.preceding_comments {
             let line_num = comment_pos.line_number;
 
-            if !processed_lines.contains(&line_num) {
+            // A comment after code on the same line moves with that
+            // code, so only indent comments that start their line.
+            if !processed_lines.contains(&line_num) && starts_line(src, comment_pos) {
                 // Use the corrected indent of the following token, or its original column
                 let mut target_indent = corrected_indents
                     .get(&token.position.line_number)
@@ -687,7 +697,7 @@ fn collect_comment_edits(
     for (comment_pos, _) in &token_stream.trailing_comments {
         let line_num = comment_pos.line_number;
 
-        if !processed_lines.contains(&line_num) {
+        if !processed_lines.contains(&line_num) && starts_line(src, comment_pos) {
             let current_indent = comment_pos.column;
 
             if current_indent != 0 {
